@@ -1076,7 +1076,7 @@ func genC02(tier string, seed uint64, n int, e *Emitter) {
 	if n == 0 {
 		n = 300
 		if tier == "thorough" {
-			n = 4000
+			n = 2000
 		}
 	}
 	// corpus: the documented finding and its neighbours, on the fixed schema
